@@ -111,7 +111,8 @@ def clause_task(p, cfg, rec):
     load_state(d, S)
     Iw = symsim.poke_fresh(list(d['ins'].values()), 'i_')
     I = {n: Iw[w] for n, w in d['ins'].items()}
-    p.assume(cfg['assume'](S, I))
+    if kind != 'reg2axi-any':
+        p.assume(cfg['assume'](S, I))
     with quiet():
         sim.propagateAll()
     pre_out = {n: w.get() for n, w in d['outs'].items()}
@@ -144,6 +145,34 @@ def clause_task(p, cfg, rec):
                 canary=clear)
         p.prove('a beat offered while inactive is not captured', z3.And(S['active'] == 0, I['tvalid'] == 1, z3.Not(clear),
                                                                       z3.Or(neq(post['data'], S['data']), neq(post['loaded'], S['loaded']))),
+                inputs=allv, replay=replay)
+    elif kind == 'reg2axi-any':
+        # no environment assumption and no invariant: ANY register state (also a beat pending while inactive,
+        # which a done pulse during a stalled second beat produces) and any control/handshake inputs
+        dw = d['outs']['tdata'].getWidth()
+        act = S['active'] == 1
+        accepted = z3.And(act, S['tvalid'] == 1, I['tready'] == 1)
+        load = z3.And(I['load_outs'] == 1, act)
+        p.prove('reset clears VALID, sent and active in every state', z3.And(I['ap_reset'] == 1, z3.Or(T1(post['tvalid']), T1(post['sent']), T1(post['active']))),
+                inputs=allv, replay=replay, canary=z3.And(I['ap_reset'] == 1, S['tvalid'] == 1, S['active'] == 0))
+        p.prove('VALID is not dropped before a beat is accepted or a reset (every state)',
+                z3.And(S['tvalid'] == 1, z3.Not(z3.And(S['tvalid'] == 1, I['tready'] == 1)), I['ap_reset'] == 0, z3.Not(T1(post['tvalid']))),
+                inputs=allv, replay=replay)
+        p.prove('VALID drops in the cycle a beat is accepted while active (every state)',
+                z3.And(accepted, z3.Not(load), T1(post['tvalid'])), inputs=allv, replay=replay, canary=accepted)
+        p.prove('TDATA changes only on a load pulse while active and then takes the offered value (every state)',
+                z3.Or(z3.And(load, neq(post['tdata'], zx(I['reg_in'], dw))), z3.And(z3.Not(load), neq(post['tdata'], S['tdata']))),
+                inputs=allv, replay=replay)
+        p.prove('LAST equals VALID and KEEP is the constant mask (every state)',
+                z3.Or(T1(pre_out['tlast']) != T1(pre_out['tvalid']), T1(post_out['tlast']) != T1(post_out['tvalid']),
+                      neq(pre_out['tkeep'], bv(cfg['keep'], dw // 8)), neq(post_out['tkeep'], bv(cfg['keep'], dw // 8))),
+                inputs=allv, replay=replay)
+        p.prove('sent rises only after a beat accepted while active (every state)', z3.And(S['sent'] == 0, T1(post['sent']), z3.Not(accepted)),
+                inputs=allv, replay=replay)
+        p.prove('VALID rises only on a load pulse while active (every state)', z3.And(S['tvalid'] == 0, T1(post['tvalid']), z3.Not(load)),
+                inputs=allv, replay=replay)
+        p.prove('done or reset deactivate, start activates, otherwise active is held (every state)',
+                neq(post['active'], z3.If(z3.Or(I['ap_reset'] == 1, I['ap_done'] == 1), bv(0, 1), z3.If(I['ap_start'] == 1, bv(1, 1), S['active']))),
                 inputs=allv, replay=replay)
     else:
         dw = d['outs']['tdata'].getWidth()
@@ -184,6 +213,7 @@ def tasks_for(tier):
         c['bmc'] = K
         t.append(('Reg2Axi reg%d stream%d reference machine' % (qw, dw), seq_task, c))
         t.append(('Reg2Axi reg%d stream%d clauses' % (qw, dw), clause_task, dict(c, kind='reg2axi')))
+        t.append(('Reg2Axi reg%d stream%d clauses from every register state, no environment assumption' % (qw, dw), clause_task, dict(c, kind='reg2axi-any')))
     return t
 
 
@@ -194,7 +224,8 @@ def main(argv=None):
         technique='symbolic execution of the real adapters under the real simulator from a symbolic pre-state (1-step induction with ghost/reference state) plus BMC from power-up with fully symbolic schedules; z3 QF_BV',
         assumptions=['Axi2Reg: ap_done only when a beat has been loaded since activation (loaded == 1)',
                      'Reg2Axi: ap_done only when no beat is pending or being loaded; inductive invariant tvalid => active',
-                     'a load pulse counts only while the adapter is active; a transfer is VALID and READY in the same cycle'],
+                     'a load pulse counts only while the adapter is active; a transfer is VALID and READY in the same cycle',
+                     'the *-any clause set assumes nothing (every register state, every input); there a beat counts as accepted only while the adapter is active: a beat left pending by a done pulse stays offered while inactive (Test_Reg2Axi::test_basic_transmission relies on it) and what the peer does with it in that interval is outside the claim'],
         bounds={'widths': 'q/reg 8,32,64 on 64/128-bit streams (quick) plus 1,16,128 (thorough)', 'history': '1-step induction from any invariant state; BMC 10/20 cycles from power-up'},
         trusted_base=['z3', 'symx operator semantics', 'reference machines / clauses in checks/c16.py'])
 
